@@ -135,6 +135,8 @@ func errName(err error) string {
 		return "UnexpectedEOF"
 	case errors.Is(err, simnet.ErrInjected):
 		return "injected"
+	case errors.Is(err, simnet.ErrDeadline):
+		return "deadline"
 	}
 	return "other"
 }
@@ -311,17 +313,22 @@ func runFraming(r *core.Run) {
 			plan.failAt, plan.failErr = min(pos, total), simnet.ErrInjected
 		}
 	} else {
-		switch c.Pick(6, 2, 2) {
+		switch c.Pick(6, 2, 2, 1) {
 		case 1:
 			plan.failAt, plan.failErr = c.Intn(total+1), io.EOF
 		case 2:
 			plan.failAt, plan.failErr = c.Intn(total+1), simnet.ErrInjected
+		case 3:
+			plan.failAt, plan.failErr = c.Intn(total+1), simnet.ErrDeadline // a read deadline expires
 		}
 	}
 	if plan.failAt >= 0 {
 		kind := "eof"
 		if plan.failErr == simnet.ErrInjected {
 			kind = "read_err"
+		}
+		if plan.failErr == simnet.ErrDeadline {
+			kind = "read_deadline"
 		}
 		r.Fault(kind)
 		// classify the position
@@ -438,6 +445,11 @@ func runFraming(r *core.Run) {
 		}
 	}
 
+	if !exhaustive && entry == 0 && c.Prob(1, 4) {
+		conn.PeekErrWithData = true
+		src.withErr = true // the last chunk arrives together with the end of the stream
+		conn.OnPeekErr = func() { r.Fault("peek_data_with_error") }
+	}
 	if !exhaustive && entry == 0 && c.Prob(1, 4) {
 		conn.SegPeek = func(avail, n int) int {
 			if c.Prob(1, 3) {
@@ -598,6 +610,24 @@ func runFraming(r *core.Run) {
 	// must still hold their octets after later calls
 	var kept [][]byte
 	defer func() {
+		// the codec value outlives the connection: the next connection it serves (here: one frame, delivered at
+		// once) must get exactly its own octets, whatever state the previous stream ended in
+		if !exhaustive && len(r.Findings) == 0 {
+			l := 4 + c.Intn(40)
+			f := c.Blob(l, "any")
+			f[0], f[1], f[2], f[3] = 0, 0, 0, byte(l)
+			nb := simnet.NewSimConn(simnet.Compact, 64, nil)
+			nb.Arrive(f)
+			nb.Fail(io.EOF)
+			var got []byte
+			var err error
+			if p := r.Call(site, func() { got, err = cd.DecodeBlocked(nb) }); p != nil {
+				r.Fail("C04", "panic", site, p.Kind, "DecodeBlocked on the next connection panicked: %s", p.Value)
+			} else if err != nil || !bytes.Equal(got, f) {
+				r.Fail("C04", "frame-mismatch", site, "next-connection", "after a stream that ended with %s the same codec value returned %s (%v) for the next connection's frame %s", errName(plan.failErr), hexN(got, 16), err, hexN(f, 16))
+			}
+			r.Probe("codec_value_serves_next_connection")
+		}
 		for i, f := range kept {
 			if i < len(plan.frames) && !bytes.Equal(f, plan.frames[i]) {
 				r.Fail("C04", "frame-changed-later", site, "retained", "frame %d returned by DecodeBlocked changed after later calls (the extractor reuses its buffer)", i)
